@@ -821,3 +821,92 @@ def run(repo: Repo, ctx) -> None:
             ctx.ob('C09.R8', f'{fn.name}:kind', c.func.attr.startswith(kind),
                    f'{fn.name} calls {c.func.attr}', fn.loc,
                    sample=f'{kind} -> {c.func.attr}')
+
+    _r9(repo, ctx)
+
+
+def _isa(repo: Repo, q: str) -> Set[str]:
+    return {c.split('.')[-1] for c in repo.mro(q)}
+
+
+def _r9(repo: Repo, ctx) -> None:
+    """Path facts of the transaction state machine."""
+    from ..absint import Facts, must_pass, open_nodes
+    ctx.floor('C09.R9', 10)
+    # (a) sync_tx: already at that id -> nothing is restored
+    st = repo.func('edb.server.compiler.dbstate.CompilerConnectionState.'
+                   'sync_tx')
+    ctx.saw(st)
+    g = CFG(st.node)
+    restore = [n.id for n in g.nodes if any(
+        isinstance(c.func, ast.Attribute) and c.func.attr ==
+        'sync_to_savepoint' for c in g.node_calls(n))]
+    if not restore:
+        raise AnalysisError('C09.R9: sync_tx no longer calls '
+                            'sync_to_savepoint')
+    p = st.params()[1] if len(st.params()) > 1 else 'txid'
+    F = Facts({f'self._current_tx.id == {p}': True}, st.node)
+    on = open_nodes(g, F)
+    ok = bool(F.used) and not (set(restore) & on)
+    ctx.ob('C09.R9', 'sync_tx:current-id-is-a-no-op', ok,
+           'sync_tx restores a savepoint snapshot although the connection '
+           'is already at the requested transaction id: after ROLLBACK TO '
+           'SAVEPOINT the current id equals the savepoint id, so every '
+           'later statement would be compiled against the snapshot again '
+           'and lose the changes made since', st.loc,
+           sample='current id == txid -> return before sync_to_savepoint')
+    # (b) in a failed transaction only the two rollbacks compile
+    cq = repo.func(f'{COMP}._compile_ql_transaction')
+    ctx.saw(cq)
+    g = CFG(cq.node)
+    QL = 'edb.edgeql.ast'
+    txc = [q for q in repo.subclasses(f'{QL}.Transaction')
+           if q.startswith(QL) and not repo.subclasses(q, strict=True)]
+    if len(txc) < 6:
+        raise AnalysisError(f'C09.R9: transaction statement classes: {txc}')
+    for q in sorted(txc):
+        nm = q.split('.')[-1]
+        F = Facts({'ctx.expect_rollback': True}, cq.node)
+        F.inst['ql'] = _isa(repo, q)
+        on = open_nodes(g, F)
+        reaches = g.exit in on
+        want = nm in ('RollbackTransaction', 'RollbackToSavepoint')
+        ctx.ob('C09.R9', f'_compile_ql_transaction:failed-tx:{nm}',
+               reaches == want and bool(F.used),
+               f'in a failed transaction (expect_rollback) {nm} '
+               f'{"compiles" if reaches else "is refused"}; only ROLLBACK '
+               f'and ROLLBACK TO SAVEPOINT may: anything else would change '
+               f'the compiler\'s copy of the savepoint stack while the '
+               f'server refuses the statement', cq.loc,
+               sample=f'{nm}: compiles={want}')
+    # (c) every state component a COMMIT / DDL / migration unit carries is
+    #     reported on its own condition
+    mq = repo.func(f'{COMP}._make_query_unit')
+    ctx.saw(mq)
+    g = CFG(mq.node)
+    comps = {'user_schema': 'unit.user_schema',
+             'global_schema': 'unit.global_schema',
+             'cached_reflection': 'unit.cached_reflection'}
+    DBS = 'edb.server.compiler.dbstate'
+    for cls in ('DDLQuery', 'TxControlQuery', 'MigrationControlQuery'):
+        declared = set(repo.class_fields(f'{DBS}.{cls}'))
+        for cname, target in comps.items():
+            if cname not in declared:
+                continue
+            facts = {'ctx.dump_restore_mode': False, 'is_script': False}
+            for other in comps:
+                facts[f'comp.{other} is not None'] = (other == cname)
+            F = Facts(facts, mq.node)
+            F.inst['comp'] = _isa(repo, f'{DBS}.{cls}')
+            tg = [n.id for n in g.nodes if n.kind == 'stmt' and isinstance(
+                n.ast, ast.Assign) and any(norm(t) == target
+                                           for t in n.ast.targets)]
+            on = open_nodes(g, F)
+            tg_open = [t for t in tg if t in on]
+            ok = bool(tg_open) and must_pass(g, F, tg_open)
+            ctx.ob('C09.R9', f'_make_query_unit:{cls}:{cname}', ok,
+                   f'a {cls} unit whose compilation changed only '
+                   f'{cname} does not report it ({target} is not assigned '
+                   f'on every such path): the server keeps compiling '
+                   f'later statements against the old {cname}', mq.loc,
+                   sample=f'{target} set whenever comp.{cname} is not None')
